@@ -309,6 +309,21 @@ def run_unit(unit):
                               desc="use of %s in scope %s, declarations %s shadow=%s :: %s" % (case["dotted"], case["use"], case["choice"], case["shadow"], detail),
                               schema={"t.bitproto": text, "lib.bitproto": lib_text(LIB), "lia.bitproto": lib_text(LIA)}, replay=dict(kind="c11", case=case))
 
+            if case.get("early"):
+                # the early use is a reference of its own: when IT has no visible earlier definition the schema must be rejected there
+                sc0, idx0 = find_use(f, "f0")
+                exp0, corner0 = resolve(sc0, idx0, case["dotted"])
+                if exp0 is None or exp0[0] != "enum":
+                    out.count("early_use_unresolvable")
+                    early_line = text.split("\n").index(next(l for l in text.split("\n") if l.strip().endswith(" f0 = 9"))) + 1
+                    out.outcome("reject-early", case["dotted"], case["early"])
+                    if err is None:
+                        if not corner0:
+                            viol("unresolvable_reference_accepted", "the early use has no visible earlier definition, but the schema was accepted")
+                    elif not isinstance(err, (ReferencedTypeNotDefined, ReferencedConstantNotDefined)) or err.lineno != early_line:
+                        if not corner0:
+                            viol("wrong_rejection", "%s at L%s (early use is on L%d): %s" % (type(err).__name__, err.lineno, early_line, str(err)[:200]))
+                    continue
             use_line = text.split("\n").index(next(l for l in text.split("\n") if l.strip().endswith(" f = 1"))) + 1
             if exp_val is None:
                 out.outcome("reject", case["dotted"], case["use"])
